@@ -326,3 +326,479 @@ Section Steps.
     rewrite Hu. cbn [bind]. eexists. split; [reflexivity|]. reflexivity.
   Qed.
 End Steps.
+
+(** * The constant pool *)
+
+Definition is_kint (k : const) : Prop := exists z, k = KInt z.
+
+Lemma const_position_kint : forall z l pos,
+  const_position (KInt z) l = Some pos -> nth_error l pos = Some (KInt z).
+Proof.
+  intros z l. induction l as [|c l IH]; intros pos H; cbn [const_position] in H; [discriminate|].
+  destruct (const_eqb c (KInt z)) eqn:E.
+  - inversion H; subst. destruct c; try discriminate E. cbn [const_eqb] in E.
+    apply Z.eqb_eq in E. subst. reflexivity.
+  - destruct (const_position (KInt z) l) as [p|]; [|discriminate H]. cbn [option_map] in H.
+    inversion H; subst. cbn [nth_error]. apply IH; reflexivity.
+Qed.
+
+Lemma add_constant_kint : forall z st st1 r, add_constant (KInt z) st = (st1, r) ->
+  c_symbols st1 = c_symbols st /\ c_code st1 = c_code st /\
+  exists kx, c_constants st1 = c_constants st ++ kx /\ Forall is_kint kx /\
+  forall idx, r = Ok idx -> 0 <= idx < 65536 /\ nth_error (c_constants st1) (Z.to_nat idx) = Some (KInt z).
+Proof.
+  intros z st st1 r H. unfold add_constant in H.
+  destruct (const_position (KInt z) (c_constants st)) as [pos|] eqn:E; inversion H; subst; clear H;
+    cbn [c_symbols c_code c_constants]; (split; [reflexivity|split; [reflexivity|]]).
+  - exists []. rewrite app_nil_r. split; [reflexivity|]. split; [constructor|].
+    intros idx Hi. apply operand16_ok in Hi; [|lia]. destruct Hi as [-> Hr]. split; [exact Hr|].
+    rewrite Nat2Z.id. apply const_position_kint; exact E.
+  - exists [KInt z]. split; [reflexivity|]. split; [repeat constructor; exists z; reflexivity|].
+    intros idx Hi. apply operand16_ok in Hi; [|apply zlength_nonneg]. destruct Hi as [-> Hr].
+    split; [exact Hr|]. unfold zlength. rewrite Nat2Z.id, nth_error_app2 by lia.
+    rewrite Nat.sub_diag. reflexivity.
+Qed.
+
+Lemma emit_const_kint : forall z st st', emit_const (KInt z) st = Ok st' ->
+  c_symbols st' = c_symbols st /\
+  exists idx kx, c_code st' = c_code st ++ [byte_of_opcode OConst; idx mod 256; (idx / 256) mod 256] /\
+    c_constants st' = c_constants st ++ kx /\ Forall is_kint kx /\
+    0 <= idx < 65536 /\ nth_error (c_constants st') (Z.to_nat idx) = Some (KInt z).
+Proof.
+  intros z st st' H. unfold emit_const in H.
+  destruct (add_constant (KInt z) st) as [st1 r] eqn:E.
+  destruct (add_constant_kint z st st1 r E) as [Hs [Hc [kx [Hk [Hf Hi]]]]].
+  destruct r as [idx| | |]; try discriminate H. cbn [bind] in H. inversion H; subst; clear H.
+  cbn [emit_u16 emit_opcode c_symbols c_code c_constants]. split; [exact Hs|].
+  exists idx, kx. destruct (Hi idx eq_refl) as [Hr Hn].
+  rewrite Hc, <- app_assoc. cbn [app]. auto.
+Qed.
+
+Lemma emit_sym_spec : forall op sy st st', emit_sym op sy st = Ok st' ->
+  c_symbols st' = c_symbols st /\ c_constants st' = c_constants st /\
+  0 <= Z.of_nat (s_index sy) < 65536 /\
+  c_code st' = c_code st ++ [byte_of_opcode op; Z.of_nat (s_index sy) mod 256;
+                             (Z.of_nat (s_index sy) / 256) mod 256].
+Proof.
+  intros op sy st st' H. unfold emit_sym in H.
+  destruct (operand 16 (Z.of_nat (s_index sy))) as [idx| | |] eqn:E; try discriminate H.
+  apply operand16_ok in E; [|lia]. destruct E as [-> Hr]. cbn [bind] in H. inversion H; subst; clear H.
+  cbn [emit_u16 emit_opcode c_symbols c_code c_constants]. rewrite <- app_assoc. cbn [app]. auto.
+Qed.
+
+(** * The symbol table at top level *)
+
+(* one context, the global one (any number of scopes) *)
+Definition gtab (t : symtab) : Prop := exists k ss, t = [mkContext SGlobal k ss].
+
+Lemma gtab_resolve : forall t x sy, gtab t -> resolve t x = Some sy -> s_scope sy = SGlobal.
+Proof.
+  intros t x sy [k [ss ->]] H. unfold resolve, current_context in H. cbn [last length Nat.ltb Nat.leb] in H.
+  destruct (context_resolve (mkContext SGlobal k ss) x) as [s|] eqn:E; [|discriminate H].
+  inversion H; subst. unfold context_resolve in E. cbn [c_scope] in E.
+  destruct (resolve_scopes x (rev (c_syms (mkContext SGlobal k ss))) (total_len (mkContext SGlobal k ss)));
+    [|discriminate E].
+  cbn [option_map] in E. inversion E; subst. reflexivity.
+Qed.
+
+Lemma gtab_define : forall t x t' sy, gtab t -> define t x = (t', sy) -> gtab t' /\ s_scope sy = SGlobal.
+Proof.
+  intros t x t' sy [k [ss ->]] H. unfold define, current_context, context_define in H.
+  cbn [last update_last c_scope c_max c_syms] in H. inversion H; subst; clear H. split; [|reflexivity].
+  eexists; eexists; reflexivity.
+Qed.
+
+Lemma const_var_infix_global : forall name v op st st1 done, gtab (c_symbols st) ->
+  compile_const_var_infix name v op st = (st1, done) ->
+  done = false /\ c_symbols st1 = c_symbols st /\ c_code st1 = c_code st /\
+  exists kx, c_constants st1 = c_constants st ++ kx /\ Forall is_kint kx.
+Proof.
+  intros name v op st st1 done Hg H. unfold compile_const_var_infix in H.
+  destruct (add_constant (KInt v) st) as [st0 r] eqn:E.
+  destruct (add_constant_kint v st st0 r E) as [Hs [Hc [kx [Hk [Hf _]]]]].
+  assert (st1 = st0 /\ done = false) as [-> ->].
+  { destruct r as [idx| | |]; try (inversion H; auto; fail).
+    destruct (resolve (c_symbols st0) name) as [sy|] eqn:Er; [|inversion H; auto].
+    rewrite Hs in Er. rewrite (gtab_resolve _ _ _ Hg Er) in H. inversion H; auto. }
+  split; [reflexivity|]. split; [exact Hs|]. split; [exact Hc|]. exists kx; auto.
+Qed.
+
+(** * The intermediate evaluator *)
+
+Section PEval.
+  Variable orc : oracle.
+  Variable rs : text -> option symbol.       (* the compiler's resolution of names *)
+
+  Fixpoint peval (e : expr) (m : mst) : outcome (val * mst) :=
+    match e with
+    | EInt z => Ok (VInt z, m)
+    | EBool b => Ok (VBool b, m)
+    | EIdent x =>
+        match rs x with
+        | Some sy => Ok (nth (s_index sy) (m_gl m) VNull, m)
+        | None => Err EReferenceError
+        end
+    | EAssign l r =>
+        match l with
+        | EIdent x =>
+            match rs x with
+            | Some sy => do (v, m1) <- peval r m; Ok (v, set_global_m (s_index sy) v m1)
+            | None => Err EReferenceError
+            end
+        | _ => Err ETypeError
+        end
+    | EPrefix op r =>
+        do (v, m1) <- peval r m;
+        match op with
+        | OpNegate | OpSubtract => do x <- negate (m_heap m1) v; Ok (fst x, with_new_m m1 x)
+        | OpNot => do x <- lognot v; Ok (x, m1)
+        | _ => Err ETypeError
+        end
+    | EInfix l op r =>
+        do (a, m1) <- peval l m;
+        do (b, m2) <- peval r m1;
+        match Sem.method_of op with
+        | Some mth => do x <- binop orc mth (m_heap m2) a b; Ok (fst x, with_new_m m2 x)
+        | None => Err ETypeError
+        end
+    | _ => Err ETypeError
+    end.
+End PEval.
+
+Definition retag {A} (x : outcome A) : outcome stepres :=
+  match x with Ok _ => OutOfFuel | Err k => Err k | Fault f => Fault f | OutOfFuel => OutOfFuel end.
+
+(* what the machine does with the code of an expression, started at its first byte in state s:
+   push the value, with the heap / collector / globals the evaluator says; or stop with the
+   evaluator's error, nothing printed *)
+Definition sim_expr (orc : oracle) (prog : program) (s : vm) (ip' : Z) (r : outcome (val * mst)) : Prop :=
+  match r with
+  | Ok (v, m') => reaches orc prog s (setm s (v :: v_stack s) (v_slen s + 1) ip' m')
+  | _ => stops orc prog s (retag r) (v_out s)
+  end.
+
+Fixpoint no_ident (e : expr) : bool :=
+  match e with
+  | EInt _ | EBool _ => true
+  | EInfix l _ r => no_ident l && no_ident r
+  | EPrefix _ r => no_ident r
+  | _ => false
+  end.
+
+Definition consts_ok (prog : program) (ks : list const) : Prop :=
+  forall i z, nth_error ks i = Some (KInt z) -> nth_error (p_consts prog) i = Some (VInt z).
+
+Lemma consts_ok_app : forall prog ks kx, consts_ok prog (ks ++ kx) -> consts_ok prog ks.
+Proof.
+  intros prog ks kx H i z Hi. apply H. rewrite nth_error_app1; [exact Hi|].
+  apply nth_error_Some. rewrite Hi. discriminate.
+Qed.
+
+(* unfolding equations of compile_expression on the constructors of the fragment *)
+Definition generic_infix (l : expr) (op : operator) (r : expr) (st0 : cstate) : outcome cstate :=
+  do st1 <- compile_expression l st0;
+  do st2 <- compile_expression r st1;
+  match assoc operator_eqb op compile_operator_table with
+  | Some opc => Ok (emit_opcode opc st2)
+  | None => Fault FUnwrap
+  end.
+
+Lemma ce_int : forall z st, compile_expression (EInt z) st = emit_const (KInt z) st.
+Proof. reflexivity. Qed.
+Lemma ce_bool : forall b st,
+  compile_expression (EBool b) st = Ok (emit_opcode (if b then OTrue else OFalse) st).
+Proof. reflexivity. Qed.
+Lemma ce_ident : forall x st,
+  compile_expression (EIdent x) st =
+  match resolve (c_symbols st) x with
+  | Some s => emit_sym (scoped s OGetGlobal OGetLocal) s st
+  | None => Err EReferenceError
+  end.
+Proof. reflexivity. Qed.
+Lemma ce_prefix : forall op r st,
+  compile_expression (EPrefix op r) st =
+  do st1 <- compile_expression r st;
+  match op with
+  | OpNegate | OpSubtract => Ok (emit_opcode ONegate st1)
+  | OpNot => Ok (emit_opcode ONot st1)
+  | _ => Err ETypeError
+  end.
+Proof. reflexivity. Qed.
+Lemma ce_assign_ident : forall x r st,
+  compile_expression (EAssign (EIdent x) r) st =
+  match resolve (c_symbols st) x with
+  | Some s =>
+      do st1 <- compile_expression r st;
+      do st2 <- emit_sym (scoped s OSetGlobal OSetLocal) s st1;
+      emit_sym (scoped s OGetGlobal OGetLocal) s st2
+  | None => Err EReferenceError
+  end.
+Proof. reflexivity. Qed.
+Lemma ce_infix : forall l op r st,
+  compile_expression (EInfix l op r) st =
+  match fused_candidate l r op with
+  | Some (name, v, op') =>
+      let '(st1, done) := compile_const_var_infix name v op' st in
+      if done : bool then Ok st1 else generic_infix l op r st1
+  | None => generic_infix l op r st
+  end.
+Proof. reflexivity. Qed.
+
+(** * Simulation, expression level *)
+
+Definition expr_sim (orc : oracle) (e : expr) : Prop :=
+  forall st st', (no_ident e = true \/ gtab (c_symbols st)) -> compile_expression e st = Ok st' ->
+  c_symbols st' = c_symbols st /\
+  exists ce kx, c_code st' = c_code st ++ ce /\ c_constants st' = c_constants st ++ kx /\ Forall is_kint kx /\
+    forall prog, code_at prog (code_len st) ce -> consts_ok prog (c_constants st') ->
+    forall s, v_ip s = code_len st ->
+    sim_expr orc prog s (code_len st') (peval orc (resolve (c_symbols st)) e (mst_of s)).
+
+Lemma code_len_app : forall st st' ce, c_code st' = c_code st ++ ce -> code_len st' = code_len st + zlength ce.
+Proof. intros st st' ce H. unfold code_len. rewrite H, zlength_app. reflexivity. Qed.
+
+Lemma zlength3 : forall (a b c : Z), zlength [a; b; c] = 3.
+Proof. reflexivity. Qed.
+
+Lemma code_len_emit_opcode : forall op st, code_len (emit_opcode op st) = code_len st + 1.
+Proof. intros. unfold code_len, emit_opcode. cbn [c_code]. rewrite zlength_app. reflexivity. Qed.
+
+Lemma binop_chain : forall op opc, is_binop op = true ->
+  assoc operator_eqb op compile_operator_table = Some opc ->
+  exists mth, assoc opcode_eqb opc binary_dispatch = Some mth /\ Sem.method_of op = Some mth.
+Proof.
+  intros op opc Hb H. unfold Sem.method_of. rewrite H.
+  destruct op; try discriminate Hb; cbv in H; inversion H; subst opc; eexists; split; reflexivity.
+Qed.
+
+Lemma mst_of_setm : forall s stk n ip m, mst_of (setm s stk n ip m) = m.
+Proof. intros. destruct m; reflexivity. Qed.
+
+Lemma generic_infix_sim : forall orc l op r, expr_sim orc l -> expr_sim orc r -> is_binop op = true ->
+  forall st st', (no_ident (EInfix l op r) = true \/ gtab (c_symbols st)) ->
+  generic_infix l op r st = Ok st' ->
+  c_symbols st' = c_symbols st /\
+  exists ce kx, c_code st' = c_code st ++ ce /\ c_constants st' = c_constants st ++ kx /\ Forall is_kint kx /\
+    forall prog, code_at prog (code_len st) ce -> consts_ok prog (c_constants st') ->
+    forall s, v_ip s = code_len st ->
+    sim_expr orc prog s (code_len st') (peval orc (resolve (c_symbols st)) (EInfix l op r) (mst_of s)).
+Proof.
+  intros orc l op r IHl IHr Hop st st' Hcond H. unfold generic_infix in H.
+  apply bind_ok in H. destruct H as [st1 [H1 H]].
+  apply bind_ok in H. destruct H as [st2 [H2 H]].
+  destruct (assoc operator_eqb op compile_operator_table) as [opc|] eqn:Eopc; [|discriminate H].
+  inversion H; subst st'; clear H.
+  destruct (binop_chain op opc Hop Eopc) as [mth [Hmth Hmeth]].
+  assert (no_ident l = true \/ gtab (c_symbols st)) as Hcl.
+  { destruct Hcond as [Hn|Hg]; [left|right; exact Hg]. cbn [no_ident] in Hn.
+    apply andb_prop in Hn. tauto. }
+  destruct (IHl st st1 Hcl H1) as [Hs1 [ce1 [kx1 [Hc1 [Hk1 [Hf1 Hsim1]]]]]].
+  assert (no_ident r = true \/ gtab (c_symbols st1)) as Hcr.
+  { rewrite Hs1. destruct Hcond as [Hn|Hg]; [left|right; exact Hg]. cbn [no_ident] in Hn.
+    apply andb_prop in Hn. tauto. }
+  destruct (IHr st1 st2 Hcr H2) as [Hs2 [ce2 [kx2 [Hc2 [Hk2 [Hf2 Hsim2]]]]]].
+  cbn [emit_opcode c_symbols c_code c_constants]. split; [congruence|].
+  exists (ce1 ++ ce2 ++ [byte_of_opcode opc]), (kx1 ++ kx2).
+  split; [rewrite Hc2, Hc1, <- !app_assoc; reflexivity|].
+  split; [rewrite Hk2, Hk1, <- app_assoc; reflexivity|].
+  split; [apply Forall_app; auto|].
+  intros prog Hcode Hconsts s Hip.
+  pose proof (code_len_app _ _ _ Hc1) as L1. pose proof (code_len_app _ _ _ Hc2) as L2.
+  apply code_at_app in Hcode. destruct Hcode as [Hcode1 Hcode]. rewrite <- L1 in Hcode.
+  apply code_at_app in Hcode. destruct Hcode as [Hcode2 Hcode3]. rewrite <- L2 in Hcode3.
+  assert (consts_ok prog (c_constants st1)) as Hk1ok.
+  { apply (consts_ok_app prog _ kx2). rewrite <- Hk2. exact Hconsts. }
+  specialize (Hsim1 prog Hcode1 Hk1ok s Hip).
+  cbn [peval]. rewrite Hmeth.
+  destruct (peval orc (resolve (c_symbols st)) l (mst_of s)) as [[a m1]| | |]; cbn [bind];
+    try exact Hsim1.
+  cbn [sim_expr] in Hsim1.
+  set (sa := setm s (a :: v_stack s) (v_slen s + 1) (code_len st1) m1) in *.
+  specialize (Hsim2 prog Hcode2 Hconsts sa eq_refl). rewrite Hs1 in Hsim2.
+  unfold sa in Hsim2 at 2. rewrite mst_of_setm in Hsim2.
+  destruct (peval orc (resolve (c_symbols st)) r m1) as [[b m2]| | |]; cbn [bind];
+    try (cbn [sim_expr retag] in *; apply (reaches_stops orc prog s sa _ _ Hsim1); exact Hsim2).
+  cbn [sim_expr] in Hsim2.
+  set (sb := setm sa (b :: v_stack sa) (v_slen sa + 1) (code_len st2) m2) in *.
+  assert (code_len (emit_opcode opc st2) = code_len st2 + 1) as L3.
+  { unfold code_len, emit_opcode. cbn [c_code]. rewrite zlength_app. reflexivity. }
+  pose proof (step_binary orc prog sb opc mth a b (v_stack s) [] Hcode3 Hmth eq_refl) as Hstep.
+  change (v_heap sb) with (m_heap m2) in Hstep.
+  destruct (binop orc mth (m_heap m2) a b) as [x| | |]; cbn [bind sim_expr retag].
+  - apply (reaches_trans orc prog s sa _ Hsim1). apply (reaches_trans orc prog sa sb _ Hsim2).
+    apply reaches_step. rewrite Hstep. f_equal. f_equal. subst sb sa. unfold mst_of, setm. vmcbn.
+    rewrite mst_eta, L3. f_equal; lia.
+  - apply (reaches_stops orc prog s sa _ _ Hsim1). apply (reaches_stops orc prog sa sb _ _ Hsim2).
+    apply (stops_now orc prog sb _ Hstep).
+  - apply (reaches_stops orc prog s sa _ _ Hsim1). apply (reaches_stops orc prog sa sb _ _ Hsim2).
+    apply (stops_now orc prog sb _ Hstep).
+  - apply (reaches_stops orc prog s sa _ _ Hsim1). apply (reaches_stops orc prog sa sb _ _ Hsim2).
+    apply (stops_now orc prog sb _ Hstep).
+Qed.
+
+Lemma fused_no_ident : forall l r op x, fused_candidate l r op = Some x -> no_ident (EInfix l op r) = false.
+Proof.
+  intros l r op x H. cbn [no_ident]. destruct l; try discriminate H; try reflexivity;
+    destruct r; try discriminate H; reflexivity.
+Qed.
+
+Lemma nth_replace_nth_same : forall A n (v d : A) l, (n < length l)%nat -> nth n (replace_nth n v l) d = v.
+Proof.
+  intros A n v d. induction n as [|n IH]; intros [|y l] H; cbn [length] in H; try lia; cbn [replace_nth nth].
+  - reflexivity.
+  - apply IH. lia.
+Qed.
+
+Lemma length_repeat_val : forall A (x : A) n, length (repeat_val x n) = n.
+Proof. intros A x n. induction n; cbn [repeat_val length]; congruence. Qed.
+
+Lemma nth_set_global_same : forall n v gl, nth n (set_global n v gl) VNull = v.
+Proof.
+  intros n v gl. unfold set_global. apply nth_replace_nth_same.
+  destruct (Nat.ltb n (length gl)) eqn:E.
+  - apply Nat.ltb_lt in E. exact E.
+  - apply Nat.ltb_ge in E. rewrite app_length, length_repeat_val. lia.
+Qed.
+
+Theorem compile_expr_sim : forall orc e, in_F1e e = true -> expr_sim orc e.
+Proof.
+  intros orc e. induction e as [l IHl op r IHr|op r IHr|z| |b| |x| | |l IHl r IHr| | | |];
+    intros HF; try discriminate HF; cbn [in_F1e] in HF.
+  - (* EInfix *)
+    apply andb_prop in HF. destruct HF as [HF Hr]. apply andb_prop in HF. destruct HF as [Hop Hl].
+    specialize (IHl Hl). specialize (IHr Hr).
+    intros st st' Hcond H. rewrite ce_infix in H.
+    destruct (fused_candidate l r op) as [[[name v] op']|] eqn:Ef.
+    + destruct Hcond as [Hn|Hg]; [rewrite (fused_no_ident _ _ _ _ Ef) in Hn; discriminate Hn|].
+      destruct (compile_const_var_infix name v op' st) as [st1 done] eqn:Ec.
+      destruct (const_var_infix_global _ _ _ _ _ _ Hg Ec) as [-> [Hs1 [Hc1 [kx1 [Hk1 Hf1]]]]].
+      assert (gtab (c_symbols st1)) as Hg1 by (rewrite Hs1; exact Hg).
+      destruct (generic_infix_sim orc l op r IHl IHr Hop st1 st' (or_intror Hg1) H)
+        as [Hs [ce [kx [Hc [Hk [Hf Hsim]]]]]].
+      split; [congruence|]. exists ce, (kx1 ++ kx).
+      split; [congruence|]. split; [rewrite Hk, Hk1, <- app_assoc; reflexivity|].
+      split; [apply Forall_app; auto|].
+      assert (code_len st1 = code_len st) as L by (unfold code_len; rewrite Hc1; reflexivity).
+      rewrite L, Hs1 in Hsim. exact Hsim.
+    + exact (generic_infix_sim orc l op r IHl IHr Hop st st' Hcond H).
+  - (* EPrefix *)
+    apply andb_prop in HF. destruct HF as [Hop Hr]. specialize (IHr Hr).
+    intros st st' Hcond H. rewrite ce_prefix in H.
+    apply bind_ok in H. destruct H as [st1 [H1 H]].
+    destruct (IHr st st1 Hcond H1) as [Hs1 [ce1 [kx1 [Hc1 [Hk1 [Hf1 Hsim1]]]]]].
+    pose proof (code_len_app _ _ _ Hc1) as L1.
+    assert (exists opc, st' = emit_opcode opc st1 /\
+              ((opc = ONot /\ op = OpNot) \/ (opc = ONegate /\ (op = OpSubtract \/ op = OpNegate)))) as [opc [-> Hopc]].
+    { destruct op; try discriminate Hop; inversion H; eexists; split; try reflexivity; tauto. }
+    clear H. cbn [emit_opcode c_symbols c_code c_constants]. split; [exact Hs1|].
+    exists (ce1 ++ [byte_of_opcode opc]), kx1.
+    split; [rewrite Hc1, <- app_assoc; reflexivity|]. split; [exact Hk1|]. split; [exact Hf1|].
+    intros prog Hcode Hconsts s Hip.
+    apply code_at_app in Hcode. destruct Hcode as [Hcode1 Hcode2]. rewrite <- L1 in Hcode2.
+    specialize (Hsim1 prog Hcode1 Hconsts s Hip).
+    assert (code_len (emit_opcode opc st1) = code_len st1 + 1) as L3.
+    { unfold code_len, emit_opcode. cbn [c_code]. rewrite zlength_app. reflexivity. }
+    fold (emit_opcode opc st1). cbn [peval].
+    destruct (peval orc (resolve (c_symbols st)) r (mst_of s)) as [[a m1]| | |]; cbn [bind];
+      try exact Hsim1.
+    cbn [sim_expr] in Hsim1.
+    set (sa := setm s (a :: v_stack s) (v_slen s + 1) (code_len st1) m1) in *.
+    destruct Hopc as [[-> ->]|[-> Hop2]].
+    + pose proof (step_not orc prog sa a (v_stack s) [] Hcode2 eq_refl) as Hstep.
+      destruct (lognot a) as [x| | |]; cbn [bind sim_expr retag].
+      * apply (reaches_trans orc prog s sa _ Hsim1). apply reaches_step. rewrite Hstep.
+        f_equal. f_equal. subst sa. unfold mst_of, setm. vmcbn. rewrite ?mst_eta, L3. f_equal; lia.
+      * apply (reaches_stops orc prog s sa _ _ Hsim1). apply (stops_now orc prog sa _ Hstep).
+      * apply (reaches_stops orc prog s sa _ _ Hsim1). apply (stops_now orc prog sa _ Hstep).
+      * apply (reaches_stops orc prog s sa _ _ Hsim1). apply (stops_now orc prog sa _ Hstep).
+    + pose proof (step_negate orc prog sa a (v_stack s) [] Hcode2 eq_refl) as Hstep.
+      change (v_heap sa) with (m_heap m1) in Hstep.
+      assert (forall (A : Type) (k1 k2 : A), match op with OpNegate | OpSubtract => k1 | _ => k2 end = k1) as Hm.
+      { intros A k1 k2. destruct Hop2 as [-> | ->]; reflexivity. }
+      assert (match op with
+              | OpNegate | OpSubtract => do x <- negate (m_heap m1) a; Ok (fst x, with_new_m m1 x)
+              | OpNot => do x <- lognot a; Ok (x, m1)
+              | _ => Err ETypeError
+              end = (do x <- negate (m_heap m1) a; Ok (fst x, with_new_m m1 x))) as ->.
+      { destruct Hop2 as [-> | ->]; reflexivity. }
+      clear Hm.
+      destruct (negate (m_heap m1) a) as [x| | |]; cbn [bind sim_expr retag].
+      * apply (reaches_trans orc prog s sa _ Hsim1). apply reaches_step. rewrite Hstep.
+        f_equal. f_equal. subst sa. unfold mst_of, setm. vmcbn. rewrite ?mst_eta, L3. f_equal; lia.
+      * apply (reaches_stops orc prog s sa _ _ Hsim1). apply (stops_now orc prog sa _ Hstep).
+      * apply (reaches_stops orc prog s sa _ _ Hsim1). apply (stops_now orc prog sa _ Hstep).
+      * apply (reaches_stops orc prog s sa _ _ Hsim1). apply (stops_now orc prog sa _ Hstep).
+  - (* EInt *)
+    intros st st' Hcond H. rewrite ce_int in H.
+    destruct (emit_const_kint z st st' H) as [Hs [idx [kx [Hc [Hk [Hf [Hr Hn]]]]]]].
+    split; [exact Hs|]. eexists; exists kx. split; [exact Hc|]. split; [exact Hk|]. split; [exact Hf|].
+    intros prog Hcode Hconsts s Hip. cbn [peval sim_expr].
+    apply reaches_step. rewrite <- Hip in Hcode.
+    rewrite (step_const orc prog s idx z [] Hcode Hr (Hconsts _ _ Hn)).
+    f_equal. f_equal. apply setm_eq; try reflexivity.
+    rewrite (code_len_app _ _ _ Hc), Hip. reflexivity.
+  - (* EBool *)
+    intros st st' Hcond H. rewrite ce_bool in H. inversion H; subst st'; clear H.
+    cbn [emit_opcode c_symbols c_code c_constants]. split; [reflexivity|].
+    eexists; exists []. split; [reflexivity|]. split; [rewrite app_nil_r; reflexivity|].
+    split; [constructor|].
+    intros prog Hcode Hconsts s Hip. cbn [peval sim_expr].
+    apply reaches_step. rewrite <- Hip in Hcode.
+    rewrite (step_bool orc prog s b [] Hcode).
+    f_equal. f_equal. apply setm_eq; try reflexivity.
+    rewrite code_len_emit_opcode, Hip. reflexivity.
+  - (* EIdent *)
+    intros st st' Hcond H. destruct Hcond as [Hn|Hg]; [discriminate Hn|].
+    rewrite ce_ident in H.
+    destruct (resolve (c_symbols st) x) as [sy|] eqn:Er; [|discriminate H].
+    unfold scoped in H. rewrite (gtab_resolve _ _ _ Hg Er) in H.
+    destruct (emit_sym_spec _ _ _ _ H) as [Hs [Hk [Hr Hc]]].
+    split; [exact Hs|]. eexists; exists []. split; [exact Hc|].
+    split; [rewrite app_nil_r; exact Hk|]. split; [constructor|].
+    intros prog Hcode Hconsts s Hip. cbn [peval]. rewrite Er. cbn [sim_expr].
+    apply reaches_step. rewrite <- Hip in Hcode.
+    rewrite (step_get_global orc prog s _ [] Hcode Hr). rewrite Nat2Z.id.
+    f_equal. f_equal. apply setm_eq; try reflexivity.
+    rewrite (code_len_app _ _ _ Hc), Hip. reflexivity.
+  - (* EAssign *)
+    destruct l as [| | | | | |x| | | | | | |]; try discriminate HF. specialize (IHr HF).
+    intros st st' Hcond H. destruct Hcond as [Hn|Hg]; [discriminate Hn|].
+    rewrite ce_assign_ident in H.
+    destruct (resolve (c_symbols st) x) as [sy|] eqn:Er; [|discriminate H].
+    apply bind_ok in H. destruct H as [st1 [H1 H]].
+    apply bind_ok in H. destruct H as [st2 [H2 H3]].
+    unfold scoped in H2, H3. rewrite (gtab_resolve _ _ _ Hg Er) in H2, H3.
+    destruct (IHr st st1 (or_intror Hg) H1) as [Hs1 [ce1 [kx1 [Hc1 [Hk1 [Hf1 Hsim1]]]]]].
+    destruct (emit_sym_spec _ _ _ _ H2) as [Hs2 [Hk2 [Hr Hc2]]].
+    destruct (emit_sym_spec _ _ _ _ H3) as [Hs3 [Hk3 [_ Hc3]]].
+    pose proof (code_len_app _ _ _ Hc1) as L1. pose proof (code_len_app _ _ _ Hc2) as L2.
+    pose proof (code_len_app _ _ _ Hc3) as L3.
+    split; [congruence|].
+    set (idx := Z.of_nat (s_index sy)) in *.
+    exists (ce1 ++ [byte_of_opcode OSetGlobal; idx mod 256; (idx / 256) mod 256]
+                ++ [byte_of_opcode OGetGlobal; idx mod 256; (idx / 256) mod 256]), kx1.
+    split; [rewrite Hc3, Hc2, Hc1, <- !app_assoc; reflexivity|].
+    split; [congruence|]. split; [exact Hf1|].
+    intros prog Hcode Hconsts s Hip.
+    apply code_at_app in Hcode. destruct Hcode as [Hcode1 Hcode]. rewrite <- L1 in Hcode.
+    apply code_at_app in Hcode. destruct Hcode as [Hcode2 Hcode3]. rewrite <- L2 in Hcode3.
+    rewrite zlength3 in L2, L3.
+    assert (consts_ok prog (c_constants st1)) as Hk1ok by (rewrite <- Hk2, <- Hk3; exact Hconsts).
+    specialize (Hsim1 prog Hcode1 Hk1ok s Hip).
+    cbn [peval]. rewrite Er.
+    destruct (peval orc (resolve (c_symbols st)) r (mst_of s)) as [[a m1]| | |]; cbn [bind];
+      try exact Hsim1.
+    cbn [sim_expr] in *.
+    set (sa := setm s (a :: v_stack s) (v_slen s + 1) (code_len st1) m1) in *.
+    apply (reaches_trans orc prog s sa _ Hsim1).
+    pose proof (step_set_global orc prog sa idx a (v_stack s) [] Hcode2 Hr eq_refl) as Hstep1.
+    apply (reaches_trans orc prog sa _ _ (reaches_step orc prog _ _ Hstep1)).
+    set (sb := setm sa (v_stack s) (v_slen sa - 1) (v_ip sa + 3) (set_global_m (Z.to_nat idx) a (mst_of sa))) in *.
+    assert (v_ip sb = code_len st2) as Hipb.
+    { subst sb sa. vmcbn. lia. }
+    rewrite <- Hipb in Hcode3.
+    pose proof (step_get_global orc prog sb idx [] Hcode3 Hr) as Hstep2.
+    apply reaches_step. rewrite Hstep2. f_equal. f_equal.
+    subst sb sa. unfold mst_of, setm, set_global_m, idx. vmcbn. rewrite Nat2Z.id, nth_set_global_same.
+    f_equal; lia.
+Qed.
